@@ -202,6 +202,15 @@ func Check(n datamodel.Node, v *refval.V, o Opts) {
 	}
 	it := n.MapIterator()
 	nd.Assert(it != nil, L+"MapIterator")
+	var keysSeen []datamodel.Node
+	defer func() {
+		// key nodes handed out by the iterator are nodes like any other: they keep their value
+		// after the iterator has moved on
+		for k, kn := range keysSeen {
+			ks, err := kn.AsString()
+			nd.Assert(err == nil && ks == v.Keys[k], L+"a key node obtained from the iterator still reads the same after the iteration")
+		}
+	}()
 	for k, want := range v.L {
 		nd.Assert(!it.Done(), L+"map iterator not done before the last entry")
 		kn, c, err := it.Next()
@@ -211,6 +220,7 @@ func Check(n datamodel.Node, v *refval.V, o Opts) {
 		}
 		ks, err := kn.AsString()
 		nd.Assert(err == nil && ks == v.Keys[k], L+"map iterator yields keys in insertion order")
+		keysSeen = append(keysSeen, kn)
 		nd.Assert(refval.Equal(refval.Of(c), want), L+"map iterator yields values in insertion order")
 		c2, err := n.LookupByString(v.Keys[k])
 		nd.Assert(err == nil && refval.Equal(refval.Of(c2), want), L+"LookupByString agrees with the iterator")
